@@ -28,11 +28,11 @@ CHECKS = {
          "DESIGN.md section 4, C05"),
  "C06": ("generated-grammar search with an exact divergence oracle (recurrence of a finite configuration in the reference evaluator), demonstrated on the real VM in a child process; by-construction well-formed grammars for the completeness direction",
          "Exploration: ~800k unrepaired stack-free grammars (quick), of which ~27% are accepted; each accepted grammar is run on every string of length <= 3 over its alphabet from every rule, and the evaluator must never prove divergence; 200k by-construction well-formed grammars must be accepted. Sampled over grammars, exhaustive over short inputs.",
-         "Trusts refsem.rs's 1:1 lowering of optimized rules and its recurrence detection (exact for stack-free grammars). Open finding D15 (recursion through the implicit WHITESPACE/COMMENT call) is recognised by the model's cycle containing an implicit-skip entry; any other escape is still a violation.",
+         "Trusts refsem.rs's 1:1 lowering of optimized rules and its recurrence detection (exact for stack-free grammars). Open finding D15 (recursion through the implicit WHITESPACE/COMMENT call) is recognised by the model's cycle containing an implicit-skip entry; any other escape is still a violation. Runs under both feature configurations (default, grammar-extras); evidence merged.",
          "DESIGN.md section 4, C06"),
  "C12": ("metamorphic limit sweep over generated grammar/input cases (every limit value up to the number of calls the parse needs, counted by a cfg hook)",
          "Exploration: ~60k generated grammars (quick) x rules x inputs, each parsed once without a limit and once per swept limit L (all L when the parse needs <= 400 calls); each limited result must be the unlimited result or `call limit reached`, and completion must be monotone in L.",
-         "Trusts the hook counter only to size the sweep (the oracle does not depend on it). VM back-end only. Cases whose unlimited parse panics (empty-stack POP/PEEK) are skipped.",
+         "Trusts the hook counter only to size the sweep (the oracle does not depend on it). VM back-end only. Cases whose unlimited parse panics (empty-stack POP/PEEK) are skipped. Runs under both feature configurations (default, grammar-extras); evidence merged.",
          "DESIGN.md section 4, C12"),
  "C13": ("differential against an independently written shunting-yard over proptest operator tables and well-formed sequences, three implementations (Pratt, ConstPratt, PrecClimber)",
          "Exploration: ~400k random (table, sequence) cases (quick) plus all sequences of <= 3 operand groups over a fixed table with every operator kind; S-expressions must equal the shunting-yard's and pass an independent use-once/in-order predicate.",
@@ -44,7 +44,7 @@ CHECKS = {
          "DESIGN.md section 4, C14"),
  "C15": ("metamorphic comparison of the same generated parse with error detail off and on, plus validity/renderability predicates on the recorded attempts",
          "Exploration: ~200k generated grammars (quick) x rules x inputs, ~2.5M parse pairs; outcome equality (tokens or error position/line-col/rule sets), no panic with detail on, max_position on a char boundary in range, help message renders.",
-         "VM back-end; process-global switch handled by single-threaded worker processes. Says nothing about the *content* of the help message beyond renderability.",
+         "VM back-end; process-global switch handled by single-threaded worker processes. Says nothing about the *content* of the help message beyond renderability. Runs under both feature configurations (default, grammar-extras); evidence merged.",
          "DESIGN.md section 4, C15"),
  "C07": ("round trip: abstract grammar -> adversarially spelled concrete text -> pest_meta reader -> structural equality, proptest-generated grammars and spellings, both configurations",
          "Exploration: ~400k generated (grammar, spelling) pairs per configuration (quick); every inter-token gap, escape form, doc comment, leading `|` and redundant parenthesis is chosen independently; the rules read back must equal the abstract rules exactly.",
@@ -52,11 +52,11 @@ CHECKS = {
          "DESIGN.md section 4, C07"),
  "C08": ("trace-based oracle: the statement is evaluated over the real run's forest of rule() invocations (cfg trace hook) for generated failing parses and compared with the reported error",
          "Exploration: ~200k generated grammars (quick), ~3M failing parses; reported position must be the furthest reportable failure, every listed rule must have a matching attempt there, lists strictly sorted, and the expected/unexpected lists must equal the replacement rule's result (exactly, except where a rule matched under negation had rules tried inside it).",
-         "Trusts the trace hook to record rule() invocations faithfully (it is additive and off by default). VM back-end; C02 ties the generated back-end's errors to the VM's.",
+         "Trusts the trace hook to record rule() invocations faithfully (it is additive and off by default). VM back-end; C02 ties the generated back-end's errors to the VM's. Runs under both feature configurations (default, grammar-extras); evidence merged.",
          "DESIGN.md section 4, C08"),
  "C09": ("totality fuzzing of the grammar front-end with token-level mutations of real and generated grammars, truncations and token soup; oracle = returns + located renderable errors",
          "Exploration: ~0.7M texts (quick) from five sources; every call is wrapped in catch_unwind in a worker process whose death is attributed to the journaled in-flight text; error locations are checked against the text and rendered.",
-         "Inputs bounded as stated (4 KiB, nesting 200, repetition-count product 4096, unrolled size 256 KiB). 'Bounded time' is read as a linear budget of combinator calls for the meta parser (200/byte, enforced through pest's call limit); validation/optimisation time is covered by the size bounds and a watchdog (inconclusive, exit 2). Thorough adds a libFuzzer campaign (fuzz/fuzz_targets/meta_total.rs, 2M executions, same oracle in-target).",
+         "Inputs bounded as stated (4 KiB, nesting 200, repetition-count product 4096, unrolled size 256 KiB). 'Bounded time' is read as a linear budget of combinator calls for the meta parser (200/byte, enforced through pest's call limit); validation/optimisation time is covered by the size bounds and a watchdog (inconclusive, exit 2). Thorough adds a libFuzzer campaign (fuzz/fuzz_targets/meta_total.rs, 2M executions, same oracle in-target). Runs under both feature configurations (default, grammar-extras); evidence merged.",
          "DESIGN.md section 4, C09"),
  "C10": ("exhaustive small-scope enumeration of strings x offsets x offset pairs + proptest strings, against direct definitions of line/column/line containment",
          "Exploration: all strings of <= 6 symbols (quick) / 8 (thorough) over {a, LF, CR, TAB, e-acute, emoji} with every offset and offset pair, plus random long strings; Position/Span/Pair/Error line-column results and the rendered error text are compared with the definitions. Bounded-exhaustive plus sampled.",
